@@ -25,9 +25,10 @@ import (
 //     counter leaves its low byte. Format both ways against the reference codec, and the
 //     manipulations "swap segments i and i+256" and "drop 256 consecutive segments", which a counter
 //     that is effectively 8 bits wide would not notice; faults of the underlying reader at the
-//     boundary of segment 256 and at the very end.
+//     boundary of segment 256 and at the very end, faults of the underlying writer at the boundary
+//     of segment 256, inside a later segment and in the last byte.
 //   - "seg65537" / "seg1MiB" (low weight): 2-3 segments of 65537 bytes or 1 MiB, all-zero plaintext,
-//     format both ways and one manipulation.
+//     format both ways, one manipulation, one reader and one writer fault position.
 func TestSegmentExtremes(t *testing.T) {
 	rapid.Check(t, func(rt *rapid.T) {
 		detrand.Seed(rapid.Uint64().Draw(rt, "entropy"))
@@ -242,7 +243,7 @@ func manySegments(rt *rapid.T) {
 	}
 
 	// persistent failure of the underlying reader around segment 256 and at the very end
-	errKind := rapid.SampledFrom(faultErrKinds).Draw(rt, "faulterr")
+	errKind := gen.Pick(rt, "faulterr", faultErrKinds)
 	ferr := faultErr(errKind, "reader")
 	b256 := cfg.HeaderLen() + cfg.FirstSegLen() + 255*cfg.SegmentSize // offset of segment 256
 	for _, k := range []int{b256 - 1, b256, b256 + 1, len(rct) - 1, len(rct)} {
@@ -254,8 +255,16 @@ func manySegments(rt *rapid.T) {
 		}
 	}
 	evid.Add("fault_positions", 5)
+	// persistent failure of the underlying writer from segment 256 on (the other units stop at 16
+	// segments): at the boundary of segment 256, inside a later segment, in the very last byte
+	partial := rapid.Bool().Draw(rt, "partialwrite")
+	werr := faultErr(errKind, "writer")
+	for _, k := range []int{b256 - 1, b256, b256 + 1, rapid.IntRange(b256, len(ct)-1).Draw(rt, "wfaultat"), len(ct) - 1} {
+		evid.Add("writer_error_from_"+expectWriterFault(rt, c, wp, k, partial, werr), 1)
+	}
+	evid.Add("writer_fault_positions", 5)
 	class := fmt.Sprintf("many/%s/segs=%s/%s/w=%s/r=%s/src=%s/err=%s", tg.class(), manyClass(nseg), relClass(cfg, n), wp.kind, rp.bufKind, rp.chunkKind, errKind)
-	evid.Case(class, true, evid.NewH().S(tg.String()).B(c.pt).B(c.aad).S(wp.String()).S(rp.String()).S(fmt.Sprint(ops, errKind)).B(rct[:cfg.HeaderLen()]).Sum(), func() any {
+	evid.Case(class, true, evid.NewH().S(tg.String()).B(c.pt).B(c.aad).S(wp.String()).S(rp.String()).S(fmt.Sprint(ops, errKind, partial)).B(rct[:cfg.HeaderLen()]).Sum(), func() any {
 		return map[string]any{"target": tg.String(), "pt_len": n, "segments": nseg, "writes": wp.String(), "reads": rp.String(), "manipulations": ops, "fault_error": errKind}
 	})
 }
@@ -387,7 +396,7 @@ func hugeSegments(rt *rapid.T, kind string) {
 		r := runReads(rt, tg.dec, mct, cd.aad, rp, -1)
 		expectError(rt, desc+"\n  manipulation: "+op, r, cd.pt)
 	}
-	errKind := rapid.SampledFrom(faultErrKinds).Draw(rt, "faulterr")
+	errKind := gen.Pick(rt, "faulterr", faultErrKinds)
 	ferr := faultErr(errKind, "reader")
 	b1 := c.HeaderLen() + c.FirstSegLen()
 	k := rapid.SampledFrom([]int{b1 - 1, b1, b1 + 1, len(rct) - 1, len(rct)}).Draw(rt, "hugefault")
@@ -397,13 +406,16 @@ func hugeSegments(rt *rapid.T, kind string) {
 	if !r.src.faultHit {
 		rt.Fatalf("%s\nan error (%s: %v) was reported before the underlying reader failed (it had delivered %d bytes)", d, r.stage, r.err, r.src.pos)
 	}
+	// and one position at which the underlying writer starts to fail
+	wk := rapid.SampledFrom([]int{b1 - 1, b1, b1 + 1, len(ct) - 1}).Draw(rt, "hugewfault")
+	evid.Add("writer_error_from_"+expectWriterFault(rt, cd, wp, wk, rapid.Bool().Draw(rt, "partialwrite"), faultErr(errKind, "writer")), 1)
 	offClass := "0"
 	if c.Offset > 0 {
 		offClass = ">0"
 	}
 	class := fmt.Sprintf("%s/%s/segs=%d/%s/off=%s/op=%s/err=%s", kind, tg.class(), nseg, lk, offClass, op, errKind)
-	evid.Case(class, true, evid.NewH().S(tg.String()).I(int64(n)).B(cd.aad).S(wp.String()).S(rp.String()).S(op).S(errKind).I(int64(k)).B(rct[:c.HeaderLen()]).Sum(), func() any {
-		return map[string]any{"target": tg.String(), "pt_len": n, "segments": nseg, "writes": wp.String(), "reads": rp.String(), "manipulation": op, "fault_error": errKind, "fault_offset": k}
+	evid.Case(class, true, evid.NewH().S(tg.String()).I(int64(n)).B(cd.aad).S(wp.String()).S(rp.String()).S(op).S(errKind).I(int64(k)).I(int64(wk)).B(rct[:c.HeaderLen()]).Sum(), func() any {
+		return map[string]any{"target": tg.String(), "pt_len": n, "segments": nseg, "writes": wp.String(), "reads": rp.String(), "manipulation": op, "fault_error": errKind, "fault_offset": k, "writer_fault_offset": wk}
 	})
 }
 
